@@ -72,6 +72,7 @@ fn run_case(c: &Case) -> CaseResult {
     let pieces = payload::split_pattern(&c.split, c.len, &mut rng);
     let sink = SharedSink::default();
     let level = bgzf::io::writer::CompressionLevel::new(c.level).expect("level 0..=9");
+    let mid_try_finish = c.pseed % 6 == 0 && pieces.len() >= 2;
 
     let run = guard::catch(|| -> Result<(), (String, String)> {
         let mut w = bgzf::io::writer::Builder::default()
@@ -126,6 +127,11 @@ fn run_case(c: &Case) -> CaseResult {
                 check(&w, "write_all", &mut last_vpos)?;
             }
             off += n;
+            if mid_try_finish && i + 1 == pieces.len() / 2 {
+                // try_finish() in the middle of a history: an EOF marker mid-file, writing goes on
+                w.try_finish().map_err(|e| ("writer-call-failed".to_string(), format!("mid-history try_finish: {e}")))?;
+                check(&w, "mid-history try_finish", &mut last_vpos)?;
+            }
             if c.flush_every > 0 && (i + 1) % c.flush_every == 0 {
                 w.flush().map_err(|e| ("writer-call-failed".to_string(), format!("flush: {e}")))?;
                 check(&w, "flush", &mut last_vpos)?;
@@ -145,6 +151,11 @@ fn run_case(c: &Case) -> CaseResult {
                 let _ = w.into_inner();
             }
             "drop" => drop(w),
+            "try_finish_then_drop" => {
+                // Drop finishes again: a second EOF marker is appended, which is still a valid file
+                w.try_finish().map_err(|e| ("writer-call-failed".to_string(), format!("try_finish: {e}")))?;
+                drop(w);
+            }
             e => panic!("bad end mode {e}"),
         }
         Ok(())
@@ -286,13 +297,13 @@ fn run_case(c: &Case) -> CaseResult {
         65280..=65537 => 3 + (c.len - 65280) as u64,
         _ => 400 + (c.len / 65495) as u64,
     };
-    res.fp = fnv1a(format!("{}|{}|{}|{}|{}|{}|{}|{}", c.class, len_class, c.split, c.flush_every, c.raw_write, c.level, c.end, res.blocks).as_bytes());
+    res.fp = fnv1a(format!("{}|{}|{}|{}|{}|{}|{}|{}", c.class, len_class, c.split, c.flush_every, c.raw_write, c.level, c.end, res.blocks).as_bytes()) ^ (c.pseed % 6 == 0) as u64;
     res
 }
 
 fn gen_cases(ctx: &Ctx) -> Vec<Case> {
     let mut cases = Vec::new();
-    let ends = ["finish", "try_finish_drop", "drop"];
+    let ends = ["finish", "try_finish_drop", "drop", "try_finish_then_drop"];
     if ctx.param("tiny").is_some() {
         // Miri-sized workload: small payloads at every level, plus one full staging buffer
         let n = ctx.budget("tiny", 36, 36);
@@ -306,7 +317,7 @@ fn gen_cases(ctx: &Ctx) -> Vec<Case> {
                 flush_on_empty: i % 5 == 0,
                 raw_write: i % 2 == 0,
                 level: (i % 10) as u8,
-                end: ends[(i as usize) % 3].to_string(),
+                end: ends[(i as usize) % ends.len()].to_string(),
                 pseed: rng.next_u64(),
             });
         }
@@ -336,7 +347,7 @@ fn gen_cases(ctx: &Ctx) -> Vec<Case> {
                 flush_on_empty: (i + j) % 5 == 0,
                 raw_write: (i + j) % 2 == 0,
                 level: ((i + 3 * j) % 10) as u8,
-                end: ends[(i + j) % 3].to_string(),
+                end: ends[(i + j) % ends.len()].to_string(),
                 pseed: ctx.seed ^ k,
             });
         }
